@@ -92,8 +92,8 @@ class Runner:
     def run(self, action, inject=None):
         tr = os.path.join(self.work, "trace")
         cmd = ["strace", "-f", "-o", tr]
-        if inject:
-            cmd += ["-e", "inject=" + inject]
+        for inj in ([inject] if isinstance(inject, str) else (inject or [])):
+            cmd += ["-e", "inject=" + inj]
         cmd += [self.bld.snoopyctl, action]
         r = subprocess.run(cmd, env=self.env, capture_output=True, timeout=60)
         with open(tr, "r", errors="replace") as f:
@@ -190,6 +190,39 @@ def do_scenario(arg):
                     st["exit0_after_failed_write"] += 1
             else:
                 st["inconclusive"] += 1
+    # a rename that fails in ways that invite a fallback (file is a mount point: EBUSY; cross-device: EXDEV; immutable: EPERM),
+    # then - second fault - the process is killed before each of the system calls that follow
+    for nm_r in ("rename", "renameat", "renameat2"):
+        if not any(p[1] == nm_r for p in points):
+            continue
+        for e in ("EBUSY", "EXDEV", "EPERM"):
+            R.reset(content)
+            spec1 = "%s:error=%s:when=1" % (nm_r, e)
+            rc2, l2 = R.run(action, spec1)
+            st["err_runs"] += 1
+            if not any("(INJECTED)" in x for x in l2):
+                st["inconclusive"] += 1
+                continue
+            st["err_fired"] += 1
+            verdict("%s-on-%s" % (e, nm_r), "first %s" % nm_r, R.get(), rc2)
+            s2 = syscalls(l2)
+            ridx = max(i for i, x in enumerate(s2) if x == nm_r)
+            cnt = {}
+            for i, x in enumerate(s2):
+                cnt[x] = cnt.get(x, 0) + 1
+                if i <= ridx or x in ("exit_group", "exit"):
+                    continue
+                R.reset(content)
+                cmd_inj = [spec1, "%s:signal=KILL:when=%d" % (x, cnt[x])]
+                rc3, l3 = R.run(action, cmd_inj)
+                st["kill_runs"] += 1
+                s3 = syscalls(l3)
+                if any("killed by SIGKILL" in y for y in l3[-3:]) and any("(INJECTED)" in y for y in l3) and len(s3) == i + 1:
+                    st["kill_fired"] += 1
+                    st["second_fault_after_failed_rename"] = st.get("second_fault_after_failed_rename", 0) + 1
+                    verdict("kill-after-%s-on-%s" % (e, nm_r), "syscall #%d %s after the failed %s" % (i + 1, x, nm_r), R.get(), rc3)
+                else:
+                    st["inconclusive"] += 1
     # short writes and death at a write: file size limits below the length of the new content
     newlen = len(new or b"")
     for lim in sorted({0, 1, newlen // 2, max(newlen - 1, 0)}):
